@@ -23,11 +23,12 @@ pub const F_RESET: usize = 14;
 pub const F_GARBAGE: usize = 15;
 pub const F_PARTIAL: usize = 16;
 pub const F_COMBO: usize = 17;
-pub const NFAM: usize = 18;
+pub const F_RECORDED: usize = 18;
+pub const NFAM: usize = 19;
 
 pub const FAM_NAMES: [&str; NFAM] = [
     "text", "c0", "cursor_rel", "cursor_abs", "scroll", "edit", "sgr", "modes", "margins", "tabs", "charsets", "save_restore", "alt_screen", "strings_unknown",
-    "reset", "garbage", "partial", "combo",
+    "reset", "garbage", "partial", "combo", "recorded",
 ];
 
 #[derive(Clone, Debug)]
@@ -59,6 +60,8 @@ pub struct Profile {
     pub wild_text: bool,
     /// huge counts (65535) allowed
     pub huge: bool,
+    /// maximum length (characters) of a slice of a real recording (`/repo/benches/data/*.txt`)
+    pub recorded_max: usize,
 }
 
 impl Profile {
@@ -80,6 +83,7 @@ impl Profile {
         fam[F_ALT] = 4;
         fam[F_STRINGS] = 2;
         fam[F_RESET] = 1;
+        fam[F_RECORDED] = 1;
         Profile {
             fam,
             eight_bit: 30,
@@ -96,6 +100,7 @@ impl Profile {
             damage_pm: 0,
             wild_text: false,
             huge: true,
+            recorded_max: 200,
         }
     }
 
@@ -105,6 +110,7 @@ impl Profile {
         p.fam[F_GARBAGE] = 6;
         p.fam[F_PARTIAL] = 4;
         p.fam[F_COMBO] = 5;
+        p.fam[F_RECORDED] = 3;
         p.fam[F_STRINGS] = 4;
         p.damage_pm = 40;
         p.wild_text = true;
@@ -135,6 +141,42 @@ impl Profile {
         self.resize_pm = (self.resize_pm as u64 * r.pick(&[0u64, 1, 1, 2, 4])) as u32 / 1;
         self
     }
+}
+
+// ---------------------------------------------------------------------------------------------
+// real recordings shipped with the repository (benches/data): slices of them are one token family
+
+static RECORDINGS: std::sync::OnceLock<Vec<Vec<char>>> = std::sync::OnceLock::new();
+
+pub fn recordings() -> &'static Vec<Vec<char>> {
+    RECORDINGS.get_or_init(|| {
+        let mut v = vec![];
+        let dir = std::env::var("AVT_REPO").unwrap_or_else(|_| "/repo".to_string()) + "/benches/data";
+        let mut names: Vec<std::path::PathBuf> = std::fs::read_dir(&dir).map(|d| d.filter_map(|e| e.ok()).map(|e| e.path()).collect()).unwrap_or_default();
+        names.sort();
+        for p in names {
+            if let Ok(b) = std::fs::read(&p) {
+                let s = String::from_utf8_lossy(&b);
+                let cs: Vec<char> = s.chars().collect();
+                if !cs.is_empty() {
+                    v.push(cs);
+                }
+            }
+        }
+        v
+    })
+}
+
+/// A slice of a real recording, starting anywhere (also inside a sequence).
+pub fn recorded_slice(r: &mut Rng, max: usize) -> String {
+    let recs = recordings();
+    if recs.is_empty() {
+        return "recorded data missing".to_string();
+    }
+    let f = &recs[r.usize_below(recs.len())];
+    let len = 1 + r.usize_below(max.max(1));
+    let start = r.usize_below(f.len().saturating_sub(len).max(1));
+    f[start..(start + len).min(f.len())].iter().collect()
 }
 
 // ---------------------------------------------------------------------------------------------
@@ -556,6 +598,7 @@ pub fn gen_token_of(r: &mut Rng, fam: usize, cols: usize, rows: usize, p: &Profi
         F_GARBAGE => garbage(r, p),
         F_PARTIAL => (*r.pick(&PARTIALS)).into(),
         F_COMBO => combo(r, cols, rows, p),
+        F_RECORDED => recorded_slice(r, p.recorded_max),
         _ => String::new(),
     }
 }
